@@ -190,20 +190,19 @@ void sm4_cbc_encrypt_blocks(const SM4_KEY *key, uint8_t iv[16],
 void sm4_cbc_decrypt_blocks(const SM4_KEY *key, uint8_t iv[16],
 	const uint8_t *in, size_t nblocks, uint8_t *out)
 {
-	const uint8_t *piv = iv;
+	uint8_t c[16];
 
 	while (nblocks--) {
 		size_t i;
+		memcpy(c, in, 16); // in and out may be the same buffer
 		sm4_encrypt(key, in, out);
 		for (i = 0; i < 16; i++) {
-			out[i] ^= piv[i];
+			out[i] ^= iv[i];
 		}
-		piv = in;
+		memcpy(iv, c, 16);
 		in += 16;
 		out += 16;
 	}
-
-	memcpy(iv, piv, 16);
 }
 
 static void ctr_incr(uint8_t a[16]) {
